@@ -108,6 +108,7 @@ type Engine struct {
 	curPos  token.Pos
 	threads *threadState
 	asserts int
+	trivObls int
 	tier    int64
 	doneChans map[string]*Object
 	ctxChildren map[*Object][]*Object
@@ -172,6 +173,7 @@ func (e *Engine) note(s string) { e.notes[s]++ }
 func (e *Engine) addObl(kind, label string, pos token.Pos, bad *Term) {
 	cond := e.tb.And(e.G, bad)
 	if cond.IsFalse() {
+		e.trivObls++
 		return
 	}
 	e.obls = append(e.obls, &Obligation{Kind: kind, Label: label, Pos: e.posStr(pos), Cond: cond, Assume: e.assume, Harness: e.harness})
